@@ -135,3 +135,29 @@ def anchor_fns(facts):
     except Exception:
         pass
     return out
+
+
+class ScopedCtx:
+    """ctx proxy that drops obligations located in functions outside `scope` (a set of fn keys): used where a property only
+    depends on the part of an invariant that the code it speaks about can reach"""
+
+    def __init__(self, ctx, scope):
+        self._ctx = ctx
+        self._scope = scope
+
+    def __getattr__(self, name):
+        return getattr(self._ctx, name)
+
+    def ob(self, rule, instance, ok, fn="", site="", detail="", nontrivial=True):
+        if fn and fn in self._ctx.facts().bodies and fn not in self._scope:
+            return True
+        return self._ctx.ob(rule, instance, ok, fn=fn, site=site, detail=detail, nontrivial=nontrivial)
+
+
+def parser_scope(facts):
+    """every function the parser (from_str, and build() which it ends in) can reach"""
+    roots = [models.from_str_fn(facts), models.build_fn(facts)]
+    sc = set(facts.reachable_bodies(roots))
+    for k in list(sc):
+        sc.update(facts.closures_of(k))
+    return sc
